@@ -209,7 +209,8 @@ def r3_safe_repr(ctx: Ctx, rid: str = "R3") -> None:
     repo = ctx.repo
     ctx.rule(rid, "has_safe_repr: only literal-evaluable types; container branches recurse over every component (dict: keys and values)")
     hs = repo.func("compiler:has_safe_repr")
-    branches = [n_ for n_ in hs.node.body if isinstance(n_, ast.If)]  # type: ignore[attr-defined]
+    # normal form: a local naming type(value) is inlined, the chain of early returns is an if / else chain
+    branches = [n_ for n_ in ast.walk(hs.nnode) if isinstance(n_, ast.If)]
     safe_atoms = {"bool", "int", "float", "complex", "range", "str", "Markup"}
     seq_types = {"tuple", "list", "set", "frozenset"}
     nb = 0
@@ -242,8 +243,8 @@ def r3_safe_repr(ctx: Ctx, rid: str = "R3") -> None:
                 ok = types <= seq_types and "has_safe_repr(v) for v in value" in rtxt and rtxt.startswith("all(")
                 ctx.check(ok, f"containers:{sorted(types)}", "compiler:has_safe_repr", f"sequence components {sorted(types)}", "sequence branches must require every element to be safe", hs.loc(b))
     ctx.floor("type branches in has_safe_repr", nb, 3)
-    last = hs.node.body[-1]  # type: ignore[attr-defined]
-    ctx.check(isinstance(last, ast.Return) and ast.unparse(last.value) == "False", "default:False", "compiler:has_safe_repr", "default", "has_safe_repr must default to False", hs.loc(last))
+    last = sorted(astq.returns(hs.nnode), key=lambda r_: (r_.lineno, r_.col_offset))[-1]
+    ctx.check(isinstance(last, ast.Return) and ast.unparse(last.value) == "False" and not any(pol for g, pol in astq.guard_atoms(hs.nnode, last)), "default:False", "compiler:has_safe_repr", "default", "has_safe_repr must default to False", hs.loc(last))
     vc = repo.func("compiler:CodeGenerator.visit_Const")
     bad = False
     for c in astq.calls(vc.node):
